@@ -191,6 +191,64 @@ pub fn apply(obj: &mut Object, op: &str) -> String {
     }
 }
 
+/// The key index answers exactly what a scan of the entries answers (every present key, one absent key).
+pub fn index_consistent(obj: &Object) -> bool {
+    let es: Vec<&Entry> = obj.iter().collect();
+    for e in &es {
+        let want: Vec<usize> = es.iter().enumerate().filter(|(_, x)| x.key == e.key).map(|(i, _)| i).collect();
+        let got: Vec<usize> = obj.indexes_of(e.key.as_str()).collect();
+        if want != got || obj.index_of(e.key.as_str()) != want.first().copied() {
+            return false;
+        }
+    }
+    obj.indexes_of("\u{1}absent").next().is_none() && obj.len() == es.len()
+}
+
+/// The mutable lookups (`get_mut`, `get_unique_mut`, also consumed by `nth`/`last`/`rev`-less
+/// adaptors) reach exactly the entries the shared lookups report: same values in the same order,
+/// and a write through the i-th yielded reference lands on the i-th matching entry.
+pub fn mut_lookup_agrees(obj: &Object, k: &str) -> bool {
+    let idx: Vec<usize> = obj.indexes_of(k).collect();
+    let want: Vec<String> = obj.get(k).map(value_str).collect();
+    let mut o = obj.clone();
+    let got: Vec<String> = o.get_mut(k).map(|v| value_str(v)).collect();
+    if got != want || o.get_mut(k).count() != idx.len() {
+        return false;
+    }
+    for n in 0..idx.len() + 1 {
+        let mut o = obj.clone();
+        let mark = Value::String("\u{1}written".into());
+        let hit = match o.get_mut(k).nth(n) {
+            Some(v) => {
+                *v = mark.clone();
+                true
+            }
+            None => false,
+        };
+        if hit != (n < idx.len()) {
+            return false;
+        }
+        for (i, (e, e0)) in o.iter().zip(obj.iter()).enumerate() {
+            let expect_written = hit && i == idx[n.min(idx.len().saturating_sub(1))] && n < idx.len();
+            if expect_written {
+                if e.value != mark || e.key != e0.key {
+                    return false;
+                }
+            } else if e != e0 {
+                return false;
+            }
+        }
+    }
+    let mut o = obj.clone();
+    let ok = match (o.get_unique_mut(k).map(|x| x.map(|v| value_str(v))), obj.get_unique(k)) {
+        (Ok(None), Ok(None)) => true,
+        (Ok(Some(a)), Ok(Some(b))) => a == value_str(b),
+        (Err(d), Err(d0)) => d.0 == d0.0 && d.1 == d0.1,
+        _ => false,
+    };
+    ok
+}
+
 pub fn entries_str(obj: &Object) -> String {
     list(obj.iter(), estr)
 }
@@ -215,7 +273,8 @@ pub fn queries_str(obj: &Object, nkeys: usize) -> String {
             && styles_agree(&|| obj.get_entries(k), &|e| e as *const Entry)
             && styles_agree(&|| obj.get_with_index(k), &|(i, v)| (i, v as *const Value))
             && styles_agree(&|| obj.get_entries_with_index(k), &|(i, e)| (i, e as *const Entry))
-            && styles_agree(&|| obj.indexes_of(k), &|i| i);
+            && styles_agree(&|| obj.indexes_of(k), &|i| i)
+            && mut_lookup_agrees(obj, k);
         if !styles {
             out.push_str("ITERATOR-STYLES-DISAGREE ");
         }
@@ -421,6 +480,52 @@ pub fn generate(args: &Args, out: &mut Out) {
             for cut in (1..ops.len()).step_by(7) {
                 out.case_str(&format!("h {} {}", nk, ops[..cut].join(" ")));
             }
+        }
+    }
+    // 2b. grow / drain / regrow cycles: many distinct keys (the table passes 64, 128 buckets),
+    // then removals at random positions down to a few entries (a table that shrinks or
+    // tombstones has to stay consistent), observed along the drain, then growth again
+    for _ in 0..(if full { 1500 } else { 120 }) {
+        let mut r = rng.fork();
+        let nk = *r.pick(&[40usize, 70, 130]);
+        let target = r.range(29, nk);
+        let mut ops: Vec<String> = vec![];
+        let mut len = 0usize;
+        for i in 0..target {
+            // mostly distinct keys, a few duplicates
+            let k = if r.chance(1, 8) { r.below(i + 1) } else { i };
+            ops.push(format!("{}:{}:{}", if r.chance(1, 6) { "pushf" } else { "push" }, k, r.below(100)));
+            len += 1;
+        }
+        let floor = r.below(17);
+        let mut cuts = vec![];
+        while len > floor {
+            let op = match r.below(8) {
+                0 => format!("rm:{}:{}", r.below(nk), r.pick(&["0", "1", "*"])),
+                1 => format!("rmu:{}", r.below(nk)),
+                2 => format!("ins:{}:{}:*", r.below(target), r.below(100)),
+                _ => format!("rmat:{}", if r.chance(1, 5) { len - 1 } else { r.below(len) }),
+            };
+            if op.starts_with("rmat") {
+                len -= 1;
+            } else if len > 0 && r.chance(1, 2) {
+                // rm / rmu / ins may or may not remove: keep `len` an upper bound, and make progress
+                ops.push(op);
+                ops.push(format!("rmat:{}", r.below(len)));
+                len -= 1;
+                continue;
+            }
+            ops.push(op);
+            if len <= 20 || r.chance(1, 6) {
+                cuts.push(ops.len());
+            }
+        }
+        for _ in 0..r.range(0, 40) {
+            ops.push(format!("push:{}:{}", r.below(nk), r.below(100)));
+        }
+        out.case_str(&format!("h {} {}", nk, ops.join(" ")));
+        for cut in cuts.into_iter().step_by(if full { 1 } else { 3 }) {
+            out.case_str(&format!("h {} {}", nk, ops[..cut].join(" ")));
         }
     }
     // 3. bulk construction
